@@ -435,7 +435,66 @@ def run_C19(run):
                       CHECKER)
 
 
-TABLE = {"C19": run_C19, "C06": run_C06, "C14": run_C14, "C18": run_C18, "C05": run_C05, "C07": run_C07, "C01": run_C01, "C13": run_C13, "C09": run_C09, "C04": run_C04, "C02": run_C02, "C10": run_C10, "C08": run_C08, "C17": run_C17, "C12": run_C12}
+# ------------------------------------------------------------------------------------------ C16
+def run_C16(run):
+    import importlib.util, shlex
+    spec = importlib.util.spec_from_file_location("c16cfg", os.path.join(core.VERIF, "tools", "layout", "configs.py")); m = importlib.util.module_from_spec(spec); spec.loader.exec_module(m)
+    probe = os.path.join(run.dir, "layout_probe.cpp")
+    core.sh(["python3", os.path.join(core.VERIF, "tools", "layout", "gen_C16.py"), probe], timeout=60)
+    lines = {}
+    def one(name, flags):
+        exe = os.path.join(run.dir, "probe_" + name); fl = shlex.split(flags); std = "gnu++17"
+        if any(f.startswith("-std=") for f in fl): std = [f for f in fl if f.startswith("-std=")][0][5:]; fl = [f for f in fl if not f.startswith("-std=")]
+        ok, err = run.build_cpp(probe, exe, fl, std=std, opt="-O0")
+        if not ok: return name, None, err
+        rc, out, err2, dt = core.sh([exe], timeout=120)
+        if rc != 0: return name, None, "probe crashed rc=%d %s" % (rc, err2[-500:])
+        txt = os.path.join(run.dir, "layout_%s.txt" % name); open(txt, "w").write(out)
+        rc, o2, e2, dt = core.sh(["python3", os.path.join(core.VERIF, "tools", "layout", "to_coq.py"), txt, os.path.join(run.dir, "Gen_C16_%s.v" % name), name, flags or "(none)"], timeout=60)
+        if rc != 0: return name, None, e2 or o2
+        return name, [l for l in out.split("\n") if l and not l.startswith("CONFIG")], None
+    gens = []; nrec = 0
+    for name, recs, err in par([lambda n=n, f=f: one(n, f) for n, f in m.CONFIGS]):
+        g = os.path.join(run.dir, "Gen_C16_%s.v" % name)
+        if recs is None:
+            run.broken.append({"what": "layout probe does not build / run under configuration %s" % name, "detail": (err or "")[-2000:]})
+            open(g, "w").write("(* probe failed *)\n")
+        else:
+            lines[name] = recs; nrec += len(recs)
+        gens.append(g)
+    run.cov["configurations"] = len(m.CONFIGS); run.cov["layout_records"] = nrec
+    ok = run.prove(gens, ["C16/A_C16_defs.v"], [], "C16/Properties_C16.v", timeout=900)
+    # violation search: the records that do not satisfy the contract, per configuration (evaluated in Coq on the regenerated tables)
+    fails = []
+    good = [n for n, _ in m.CONFIGS if n in lines]
+    txt = ["Require Import ZArith List Bool. Import ListNotations. From GLMV Require Import Layout.", "From W Require Import A_C16_defs " + " ".join("Gen_C16_" + n for n in good) + "."]
+    for n in good: txt.append("Eval vm_compute in (violations Gen_C16_%s.cfg Gen_C16_%s.table)." % (n, n))
+    res = run.coq_eval("Viol_C16", "\n".join(txt) + "\n")
+    outs = re.findall(r"=\s*(\[[^\]]*\]|nil)", res.replace("\n", " "))
+    if len(outs) != len(good):
+        run.broken.append({"what": "the violation listing could not be evaluated", "detail": res[-1500:]})
+    else:
+        flagsof = dict(m.CONFIGS)
+        for n, o in zip(good, outs):
+            idx = [int(x) for x in re.findall(r"\d+", o)]
+            for i in idx:
+                rec = lines[n][i] if i < len(lines[n]) else "?"
+                t = rec.split()
+                cls = "%s %s" % (n, " ".join(t[:4 if t[0] != "MAT" else 5]))
+                fails.append({"fn": "layout", "class": cls, "input": "configuration %s (%s): %s" % (n, flagsof[n] or "no macro", rec), "expected": "GLMV.Layout.rec_ok", "got": "violated", "line": rec})
+    run.cov["oracle_functions_failing"] = sorted(set(f["class"] for f in fails))[:20]
+    run.fails = run.triage(fails)
+    run.assumptions = ["the layout facts are what g++ 12.2 assigns (sizeof, alignof, addresses of components of an object in a 64-byte aligned buffer); other compilers / ABIs are outside the statement",
+                       "value_ptr / make_* round trips are observed by the probe at run time on one object per type (distinct component values) and enter the table as a boolean; they are not re-derived in Coq",
+                       "configurations are those listed in tools/layout/configs.py (16, among them every SIMD level available in the sandbox: SSE2, SSE4.2, AVX, AVX2); NEON and the MSVC union layout are not reachable here",
+                       "GLM_FORCE_DEFAULT_ALIGNED_GENTYPES without SIMD does not compile (compute_vec_mul<4,float,aligned_highp,true>::call is missing: property C15's domain) and is therefore not in the list"]
+    run.samples.append("per configuration: 4 lengths x 11 element types x (4 packed/default + 3 aligned qualifiers) vectors, 9 shapes x 3 element types x qualifiers matrices, 2 x qualifiers quaternions, make_* from raw arrays for 4 element types")
+    return run.finish(["Coq 8.16.1 kernel (coqc) including the vm_compute virtual machine", "the layout extractor tools/layout (gen_C16.py probe generator, to_coq.py) and g++'s sizeof/alignof/address arithmetic", "GLMV.Layout.rec_ok: the contract, read not proved"],
+                      "theorems: every record of every configuration satisfies the contract (finite product, by computation) and the contract implies contiguity / column-major order / value_ptr indexing / quaternion order for every record",
+                      "tools/layout/gen_C16.py; g++ <config flags>; tools/layout/to_coq.py; coqc (Gen_C16_<cfg> x16, A_C16_defs, Properties_C16)")
+
+
+TABLE = {"C16": run_C16, "C19": run_C19, "C06": run_C06, "C14": run_C14, "C18": run_C18, "C05": run_C05, "C07": run_C07, "C01": run_C01, "C13": run_C13, "C09": run_C09, "C04": run_C04, "C02": run_C02, "C10": run_C10, "C08": run_C08, "C17": run_C17, "C12": run_C12}
 
 
 def replay(pid, path):
